@@ -98,6 +98,8 @@ def run_cell(cell):
         return cell_mutation(cell, count_only=True)
     if kind == 'malformed':
         return cell_malformed(cell)
+    if kind == 'deepspec':
+        return cell_deepspec(cell)
     return {'status': 'harness', 'msg': 'unknown cell'}
 
 
@@ -362,7 +364,6 @@ def cell_depth(cell):
             'tree_paths': lambda: optree.tree_paths(tree, namespace=ns), 'tree_accessors': lambda: optree.tree_accessors(tree, namespace=ns),
             'transpose_map': lambda: optree.tree_transpose_map(lambda x: (x, x), tree, namespace=ns),
             'replace_nones': lambda: optree.tree_replace_nones(0, tree, namespace=ns),
-            'compose_paths': lambda: len(spec.compose(spec).paths()),
             'compose_unflatten': lambda: spec.compose(spec).unflatten([1]),
         }
         bad = {}
@@ -372,6 +373,120 @@ def cell_depth(cell):
                 bad[name] = o
         out['at_limit_failures'] = bad
     return out
+
+
+def cell_deepspec(cell):
+    """a treespec nested deeper than any tree can be (only compose / transform can make one): every method
+    must answer or raise, never overflow the C stack"""
+    import optree
+    import pickle
+    from vlib import universe as U
+    from vlib.props.c03 import deep
+    k, depth, method = cell['container'], cell['depth'], cell['method']
+    ns = U.NSF if k == 'fn' else ''
+    limit = optree.MAX_RECURSION_DEPTH
+
+    def chain(d):
+        if k == 'fn':
+            x = 1
+            for _ in range(d):
+                x = U.FN([x], None)
+            return optree.tree_structure(x, namespace=ns)
+        return optree.tree_structure(deep(k, d, 1), namespace=ns)
+    U.TICK.reset()
+    spec = chain(min(depth, limit))
+    have = min(depth, limit)
+    unit = spec
+    while have < depth:                    # compose adds depths
+        if have * 2 <= depth:
+            spec = spec.compose(spec)
+            have *= 2
+        else:
+            step = min(depth - have, limit)
+            spec = spec.compose(unit if step == limit else chain(step))
+            have += step
+    U.TICK.reset()
+    n = spec.num_nodes
+    if n != depth + 1 or spec.num_leaves != 1:
+        return {'status': 'harness', 'msg': f'built {n} nodes for depth {depth}'}
+    leafspec = optree.tree_structure(1)
+    check = None
+    if method == 'paths':
+        fn, check = (lambda: spec.paths()), (lambda r: len(r) == 1 and len(r[0]) == depth)
+    elif method == 'accessors':
+        fn, check = (lambda: spec.accessors()), (lambda r: len(r) == 1 and len(r[0]) == depth)
+    elif method == 'broadcast_self':
+        fn, check = (lambda: spec.broadcast_to_common_suffix(spec)), (lambda r: r.num_nodes == n and r == spec)
+    elif method == 'broadcast_leaf':
+        fn, check = (lambda: leafspec.broadcast_to_common_suffix(spec)), (lambda r: r.num_nodes == n and r == spec)
+    elif method == 'broadcast_shallow':
+        sh = chain(3)
+        fn, check = (lambda: sh.broadcast_to_common_suffix(spec)), (lambda r: r.num_nodes == n)
+    elif method == 'is_prefix':
+        fn, check = (lambda: (spec.is_prefix(spec), spec.is_suffix(spec), spec <= spec, spec < spec)), (lambda r: r == (True, True, True, False))
+    elif method == 'eq_hash':
+        other = spec.compose(leafspec)
+        fn, check = (lambda: (spec == other, hash(spec) == hash(other))), (lambda r: r == (True, True))
+    elif method == 'repr':
+        fn, check = (lambda: len(repr(spec)) + len(str(spec))), (lambda r: r > 2 * depth)
+    elif method == 'unflatten':
+        def fn():
+            t = spec.unflatten([7])
+            d = 0
+            while not isinstance(t, int):    # walk down without recursion
+                t = t.ch[0] if k == 'fn' else (next(iter(t.values())) if isinstance(t, dict) else
+                                              (t.children[0] if k == 'cg' else t[0]))
+                d += 1
+            return d
+        check = lambda r: r == depth  # noqa: E731
+    elif method == 'children':
+        fn, check = (lambda: (spec.children(), spec.child(0), spec.one_level(), spec.entries(), spec.entry(0))), \
+            (lambda r: len(r[0]) == 1 and r[0][0].num_nodes == n - 1 and r[1].num_nodes == n - 1 and r[2].num_nodes == 2)
+    elif method == 'transform':
+        fn, check = (lambda: spec.transform(lambda s: s, lambda s: s)), (lambda r: r == spec)
+    elif method == 'compose':
+        fn, check = (lambda: spec.compose(spec)), (lambda r: r.num_nodes == 2 * depth + 1)
+    elif method == 'pickle':
+        fn, check = (lambda: pickle.loads(pickle.dumps(spec))), (lambda r: r == spec and r.num_nodes == n)
+    elif method == 'walk':
+        fn, check = (lambda: spec.walk([1], lambda t, d, c: 1 + c[0] if c else 1, lambda x: 0)), (lambda r: r == depth)
+    elif method == 'traverse':
+        fn, check = (lambda: spec.traverse([1], lambda x: 0, lambda x: 5)), None
+    elif method == 'py_ops':
+        fn = lambda: (optree.treespec_paths(spec), optree.treespec_accessors(spec), optree.treespec_is_prefix(spec, spec),  # noqa: E731
+                      optree.treespec_child(spec, 0), optree.treespec_one_level(spec))
+    else:
+        return {'status': 'harness', 'msg': method}
+    out = {'status': 'deepspec', 'verdict': None, 'consistent': True}
+
+    def body():
+        try:
+            r = fn()
+        except RecursionError:
+            out['verdict'] = 'RecursionError'
+        except BaseException as e:  # noqa: BLE001
+            out['verdict'] = type(e).__name__
+            out['msg'] = str(e)[:200]
+        else:
+            if check is not None and not check(r):
+                out['consistent'] = False
+                out['msg'] = repr(r)[:200]
+            del r
+    # the call runs on an ordinary-sized stack (4 x the 8 MiB default: sanitizer frames are up to ~7x larger), not on
+    # the worker's 256 MiB one: unbounded native recursion must show up at realistic depths
+    import threading
+    old = threading.stack_size(32 * 1024 * 1024)
+    try:
+        t = threading.Thread(target=body)
+        t.start()
+        t.join()
+    finally:
+        threading.stack_size(old)
+    return out
+
+
+DEEPSPEC_METHODS = ('paths', 'accessors', 'broadcast_self', 'broadcast_leaf', 'broadcast_shallow', 'is_prefix', 'eq_hash', 'repr',
+                    'unflatten', 'children', 'transform', 'compose', 'pickle', 'walk', 'traverse', 'py_ops')
 
 
 def cell_selfref(cell):
@@ -768,7 +883,8 @@ class C16(runner.Prop):
             key = {'mutation': lambda c: f"mutation/{c['traversal']}/{c['container']}",
                    'depth': lambda c: f"depth/{c['container']}", 'selfref': lambda c: f"selfref/{c['container']}",
                    'args': lambda c: 'args', 'program': lambda c: 'program', 'count': lambda c: 'count',
-                   'malformed': lambda c: f"malformed/{c['how']}"}[kind](case)
+                   'malformed': lambda c: f"malformed/{c['how']}",
+                   'deepspec': lambda c: f"deepspec/{c['method']}"}[kind](case)
             summary = _first_lines(crash['stderr'])
             ctx.fail(f'crash/{key}', f'worker died ({what}) on {json.dumps(crash["journal"] or case)[:300]} :: {summary}')
             return
@@ -798,6 +914,14 @@ class C16(runner.Prop):
                 for name in ('flatten', 'with_path', 'iter', 'accessors', 'map_with_path'):
                     if v.get(name) is None:
                         ctx.fail('malformed/accepted', f'{case}: {name} accepted children/entries mismatch')
+        elif kind == 'deepspec':
+            ctx.nontrivial(True)
+            ctx.label('deepspec_cell')
+            ctx.label(f'deepspec:{case["method"]}:{res["verdict"] or "ok"}')
+            if res['verdict'] in ('InternalError', 'SystemError'):
+                ctx.fail(f'deepspec/{case["method"]}/internal_error', f'{case}: {res.get("msg")}')
+            elif res['verdict'] is None and not res['consistent']:
+                ctx.fail(f'deepspec/{case["method"]}/inconsistent', f'{case}: {res.get("msg")}')
         elif kind == 'selfref':
             ctx.nontrivial(True)
             v = res['verdicts']
@@ -829,6 +953,12 @@ class C16(runner.Prop):
         for k in ('list', 'dict', 'od', 'dd', 'deque', 'custom', 'mutual', 'endless_flatten'):
             cells.append({'kind': 'selfref', 'container': k})
         cells.append({'kind': 'args'})
+        deep_depths = (limit + 1, 2 * limit, 8 * limit, 64 * limit) if ctx.tier == 'thorough' else (limit + 1, 8 * limit, 64 * limit)
+        for m in DEEPSPEC_METHODS:
+            for i, d in enumerate(deep_depths):
+                kinds = DEPTH_KINDS if (ctx.tier == 'thorough' or d == 8 * limit) else (DEPTH_KINDS[(i + len(m)) % len(DEPTH_KINDS)],)
+                for k in kinds:
+                    cells.append({'kind': 'deepspec', 'container': k, 'depth': d, 'method': m})
         for how in ('tuple', 'list_entries', 'iter_children', 'gen_entries', 'nested'):
             for nch, nent in ((0, 0), (1, 0), (0, 1), (2, 1), (1, 2), (3, 1), (5, 4), (4, 5), (2, 2), (40, 1), (1, 40), (300, 299)):
                 cells.append({'kind': 'malformed', 'how': how, 'nch': nch, 'nent': nent})
